@@ -240,7 +240,8 @@ def run(tier):
             if sig == "unknown":
                 ctx.note_inconclusive(f"{'+'.join(r['job'][0])}: {what}")
             elif sig.startswith("harness"):
-                raise HarnessError(f"{r['src']!r}: {what}")
+                ctx.harness_gap(f"{r['src']!r}: {what}")
+                continue
             else:
                 ctx.violation(sig, f"{src!r} -> {what}", {"source": src, "options": OPTION_SETS[r["job"][1]], "full_program": r["src"]})
     for r in results[:: max(1, len(results) // 8)]:
